@@ -43,6 +43,9 @@ def _env():
     e = dict(os.environ)
     e["CARGO_NET_OFFLINE"] = "true"
     e["CARGO_TARGET_DIR"] = target_dir()
+    # background threads of the code under test may panic on shutdown (e.g. a warm-up worker whose
+    # session was dropped); their backtraces would interleave with libtest's "test ... ok" lines
+    e["RUST_BACKTRACE"] = "0"
     return e
 
 
@@ -195,7 +198,7 @@ def run_groups(groups, tier, pid):
                 continue
             r = results[g]
             cwd = os.path.join(REPO, CRATE_DIR[spec["crate"]])
-            cmd = ["cargo", "kani", "playback", "-Z", "concrete-playback", "--", h["name"], "--nocapture"]
+            cmd = ["cargo", "kani", "playback", "-Z", "concrete-playback", "--", h["name"]]
             rc, out, secs, to = _run(cmd, cwd, h.get("timeout", 1800))
             r["checker_cmd"] = (r["checker_cmd"] + " ;; " if r["checker_cmd"] else "") + "(cd %s && %s)" % (cwd, " ".join(cmd))
             r["wall_s"] += secs
@@ -204,7 +207,8 @@ def run_groups(groups, tier, pid):
             mcalls = re.search(r"(\d+) calls", out)
             if mcalls:
                 ob["cases_enumerated"] = int(mcalls.group(1))
-            if re.search(r"test \S*%s \.\.\. ok" % re.escape(h["name"]), out):
+            if re.search(r"test \S*%s \.\.\. ok" % re.escape(h["name"]), out) or (
+                    re.search(r"test \S*%s \.\.\. " % re.escape(h["name"]), out) and re.search(r"test result: ok\. 1 passed; 0 failed", out)):
                 ob["verdict"] = "discharged"
             elif re.search(r"test \S*%s \.\.\. FAILED" % re.escape(h["name"]), out):
                 ob["verdict"] = "failed"
